@@ -32,7 +32,7 @@ META = dict(
                       'linearity end-to-end: rational grids L=4 (1-3 pops) / 3 (4-5 pops), 2 parameter points (VERIF_SEED), '
                       '2-3 steps (1-3 pops), 1 step (4-5 pops)',
                 thorough='scaling: T <= 2 dt (two steps) for 1-2 pops, L=5 for 1 pop; linearity: 4 parameter points'),
-    outside=['round-off', 'general-h equilibrium density (scipy.integrate.quad of exp)', 'more steps than stated',
+    outside=['round-off', 'accuracy of scipy.integrate.quad in the general-h equilibrium (contract stub: equal integrands and limits give equal results)', 'more steps than stated',
              'CUDA paths'],
     stubs=['tridiag -> contract in the scaling units: run 2 returns run 1\'s unknowns, justified per call by the proved '
            'equivalence of the two systems and lemma T1\'', 'EXP uninterpreted', 'dadi.Demes event log -> no-op'],
@@ -381,6 +381,67 @@ def _phi1d_unit(L):
     return H.Unit('scale-phi_1D-L%d' % L, body, params=dict(L=L), min_obligations=3 * L, timeout_s=600, maxpaths=64)
 
 
+def _phi1d_general_unit(L, cval):
+    """phi_1D with dominance (h != 1/2): scipy.integrate.quad is replaced by a contract stub.  Run A records, for every
+    quad call, the integrand as a term in a shared probe abscissa xi (the real Python integrand is evaluated on the
+    symbolic xi), the limits and a fresh result; run B (rescaled parameters) must issue the same sequence, each
+    integrand must equal A's for every xi (EXP uninterpreted, arguments proved equal) with equal limits, and receives
+    A's result.  Then the two densities must coincide."""
+    def body(env):
+        from dadi import PhiManip
+        import scipy.integrate as si_
+        xx = env.grid('x', L)
+        c = env.const(cval)
+        nu, theta0, beta = env.pos('nu'), env.real('theta0', lo=0), env.pos('beta')
+        gamma = env.real('gamma')
+        h = env.real('h', lo=0, hi=1)
+        env.assume(h != env.const('1/2'))
+        if not env.symbolic:
+            a = PhiManip.phi_1D(xx, nu=nu, theta0=theta0, gamma=gamma, h=h, beta=beta)
+            b = PhiManip.phi_1D(xx, nu=c * nu, theta0=theta0 / c, gamma=gamma / c, h=h, beta=beta)
+            env.same('phi_1D', b, a)
+            return
+        K.sym_integration(contract=False)
+        xi = S.R('xi_probe')
+        rec_a, rec_b = [], []
+        state = {'run': 'A'}
+
+        def quad_stub(f, lo, hi, args=(), **kw):
+            term = f(xi, *args)
+            if state['run'] == 'A':
+                v = S.R('quad%d' % len(rec_a))
+                rec_a.append((term, lo, hi, v))
+                return v, 0
+            k = len(rec_b)
+            rec_b.append((term, lo, hi))
+            if k >= len(rec_a):
+                raise ValueError('rescaled run issues more quadratures')
+            return rec_a[k][3], 0
+        fake = type('scipy_integrate_stub', (), {'quad': staticmethod(quad_stub)})
+        fake_scipy = type('scipy_stub', (), {'integrate': fake})
+        saved = PhiManip.scipy
+        PhiManip.scipy = fake_scipy
+        try:
+            a = PhiManip.phi_1D(xx, nu=nu, theta0=theta0, gamma=gamma, h=h, beta=beta)
+            state['run'] = 'B'
+            try:
+                b = PhiManip.phi_1D(xx, nu=c * nu, theta0=theta0 / c, gamma=gamma / c, h=h, beta=beta)
+            except ValueError as e:
+                env.fail('rescaled run issues different quadratures', str(e)[:60])
+                return
+        finally:
+            PhiManip.scipy = saved
+        env.holds('same number of quadratures (%d, %d)' % (len(rec_a), len(rec_b)), len(rec_a) == len(rec_b))
+        for k, (ra, rb) in enumerate(zip(rec_a, rec_b)):
+            env.eq_struct('quad %d: integrand identical for every abscissa' % k, rb[0], ra[0])
+            env.eq('quad %d: lower limit' % k, rb[1], ra[1])
+            env.eq('quad %d: upper limit' % k, rb[2], ra[2])
+        for j in range(L):
+            env.eq_struct('phi_1D[%d]' % j, b[j], a[j])
+    return H.Unit('scale-phi_1D-dominance-L%d-c%s' % (L, str(cval).replace('/', 'over')), body, params=dict(L=L, c=str(cval)),
+                  min_obligations=3 * L, timeout_s=900, maxpaths=64, expect_paths=2)
+
+
 def _model_unit(L, cval):
     """A small whole model built from the public API in both parametrisations."""
     def body(env):
@@ -490,6 +551,8 @@ def units(tier, seed):
     us.append(_scale_unit(4, 3, 'func', 1, sel=True, cval=c1))
     us.append(_scale_unit(5, 3, 'func', 1, sel=False, cval=c2))
     us.append(_model_unit(4, c1))
+    us.append(_phi1d_general_unit(4, c1))
+    us.append(_phi1d_general_unit(4, c2))
     if thorough:
         us.append(_scale_unit(1, 5, 'const', 2))
         us.append(_scale_unit(1, 4, 'func', 2))
